@@ -37,4 +37,14 @@ CLAIMS["C09"] = dict(
     note=(TRUST + "Not decided: the inductive tournament invariant over whole histories; behaviour of unguarded trees when a player runs out (outside the contract)."),
 )
 
+CLAIMS["C16"] = dict(
+    level="other",
+    technique="static analysis: per-mutator effect summaries with symbolic ring cursors (slot constructed/destroyed vs. slot entering/leaving [begin_,end_)), CFG dominance rules (clear before deallocate), field-completeness of moves, instantiated switch(Mode) allocation tables",
+    text=("Decides the lifetime skeleton: SLOT-CURSOR (8 primitive RingBuffer mutators construct/destroy exactly the slot that enters/leaves the live "
+          "range, cursors wrapped), ACCESSOR-CONVENTION (front/back/[]/size use the same convention), CLEAR-BEFORE-FREE, MOVED-EMPTY, COPY-ELEMENTS; "
+          "SimpleVector SV-MODE-TABLE (new[]<->delete[], operator new<->operator delete, destructor loop only in NoInitButDestroy), SV-OWNER, "
+          "SV-RESIZE-ORDER. These are necessary conditions of 'an element is alive iff stored' on every path of every mutator; found the pop_back defect (fixed)."),
+    note=(TRUST + "Not decided: equivalence with a bounded deque over whole histories, capacity preconditions (asserts), exception safety of element constructors."),
+)
+
 NOT_APPLICABLE = {}
